@@ -23,31 +23,31 @@ import (
 
 // C19Plan is one live scenario.
 type C19Plan struct {
-	Blocks    int    `json:"blocks"`     // chain length served by the peer
-	Start     int    `json:"start"`      // start block height
+	Blocks    int    `json:"blocks"` // chain length served by the peer
+	Start     int    `json:"start"`  // start block height
 	TxsPerBlk int    `json:"txs_per_block"`
-	Trigger   string `json:"trigger"`    // connecting handshake headers blocks callback insync
-	K         int    `json:"k"`          // trigger count (k-th getheaders / block / callback)
-	Action    string `json:"action"`     // stop close reset close-stop (stop StopDelayMs after closing)
+	Trigger   string `json:"trigger"` // connecting handshake headers blocks callback insync
+	K         int    `json:"k"`       // trigger count (k-th getheaders / block / callback)
+	Action    string `json:"action"`  // stop close reset close-stop (stop StopDelayMs after closing)
 	StopDelay int    `json:"stop_delay_ms,omitempty"`
 	TxTraffic bool   `json:"tx_traffic"` // peer streams inv/tx once in sync
 }
 
 type livePeer struct {
-	mu        sync.Mutex
-	fp        *fakePeer
-	ln        net.Listener
-	conns     []net.Conn
-	versions  []*wire.MsgVersion
-	firstLoc  [][]bitcoin.Hash32 // per connection: locator of the first getheaders
-	getHdrs   int
-	blocksOut int
-	onEvent   func(kind string, n int)
-	silent    bool
+	mu          sync.Mutex
+	fp          *fakePeer
+	ln          net.Listener
+	conns       []net.Conn
+	versions    []*wire.MsgVersion
+	firstLoc    [][]bitcoin.Hash32 // per connection: locator of the first getheaders
+	getHdrs     int
+	blocksOut   int
+	onEvent     func(kind string, n int)
+	silent      bool
 	muteVersion bool
-	closed    bool
-	txStream  []*wire.MsgTx
-	streamOn  bool
+	closed      bool
+	txStream    []*wire.MsgTx
+	streamOn    bool
 }
 
 func newLivePeer(fp *fakePeer) (*livePeer, error) {
@@ -189,10 +189,10 @@ func (lp *livePeer) shutdown() {
 
 // liveHandler records callbacks with wall-clock start times and can fire a hook on the k-th one.
 type liveHandler struct {
-	mu      sync.Mutex
-	events  []recEvent
-	hook    func(n int)
-	delay   time.Duration
+	mu     sync.Mutex
+	events []recEvent
+	hook   func(n int)
+	delay  time.Duration
 }
 
 func (h *liveHandler) add(ev recEvent) {
@@ -495,9 +495,9 @@ func maxInt(a, b int) int {
 
 func genC19(t *rapid.T) *C19Plan {
 	p := &C19Plan{Blocks: rapid.IntRange(3, 24).Draw(t, "blocks"), TxsPerBlk: rapid.IntRange(0, 4).Draw(t, "txs"),
-		Trigger: rapid.SampledFrom([]string{"connecting", "handshake", "headers", "blocks", "blocks", "callback", "callback", "insync", "insync"}).Draw(t, "trigger"),
-		K:       rapid.IntRange(0, 12).Draw(t, "k"),
-		Action:  rapid.SampledFrom([]string{"stop", "stop", "close", "reset", "close-stop"}).Draw(t, "action"),
+		Trigger:   rapid.SampledFrom([]string{"connecting", "handshake", "headers", "blocks", "blocks", "callback", "callback", "insync", "insync"}).Draw(t, "trigger"),
+		K:         rapid.IntRange(0, 12).Draw(t, "k"),
+		Action:    rapid.SampledFrom([]string{"stop", "stop", "close", "reset", "close-stop"}).Draw(t, "action"),
 		StopDelay: rapid.SampledFrom([]int{0, 30, 120, 220, 320, 450}).Draw(t, "stopdelay"),
 		TxTraffic: rapid.Bool().Draw(t, "txtraffic")}
 	p.Start = rapid.IntRange(1, p.Blocks).Draw(t, "start")
